@@ -250,8 +250,7 @@ class Grid2D(GridObject):
         self._centroids = None
 
         self._dip = float(value)
-        if self._dip == 90:
-            self._vertical = True
+        self._vertical = self._dip == 90
 
         self.workspace.update_attribute(self, "attributes")
 
